@@ -191,6 +191,7 @@ API_COMBOS = [  # (store, output form, chunk size)
     ("path", "pixels", 10 ** 7), ("path", "pixels+index", 1), ("path", "func", 10 ** 7),
     ("uri", "dense", 10 ** 7), ("uri", "pixels+index", 10 ** 7), ("handle", "sparse", 10 ** 7), ("handle", "pixels", 1),
     ("uri", "dense:score", 1), ("uri", "sparse:score", 10 ** 7),       # field=: the second value column of the collection
+    ("uri", "dense:weight", 10 ** 7), ("uri", "sparse:KR", 10 ** 7),   # balance=: a window of the balanced matrix is the same slice of the full balanced matrix
     ("legacy", "dense", 1), ("legacy", "pixels", 10 ** 7),             # a format-version-2 copy (no storage-mode attribute) of a symmetric cooler
 ]
 JOIN_COMBOS = [("path", "pixels+join", 10 ** 7), ("handle", "pixels+join", 1)]
@@ -212,6 +213,15 @@ def _api_case(R, n, symm, cells, tag, only, join=False, reduced=False):
         # /a/b carries a second value column (score = 40 - 3 * count: values of both signs) that field= selects
         build.create(p2 + "::/a/b", bins, {k: {"count": v, "score": 40 - 3 * v} for k, v in pix.items()}, symm, cols=("count", "score"))
         MS = build.dense(n, {k: 40 - 3 * v for k, v in pix.items()}, symm)
+        # two weight columns on /a/b: 'weight' (multiplicative) and 'KR' (divisive by default), pairwise distinct values, one masked bin
+        wv = np.array([0.5 + 0.25 * q for q in range(n)])
+        if n >= 3:
+            wv[n // 2] = np.nan
+        with h5py.File(p2, "r+") as f2:
+            f2["/a/b/bins"].create_dataset("weight", data=wv)
+            f2["/a/b/bins"].create_dataset("KR", data=1.0 / wv)
+        with np.errstate(invalid="ignore"):
+            MB = M * np.outer(wv, wv)         # full balanced matrix (the same for both columns); NaN rows / columns for the masked bin
         # a SECOND, different collection in the same file (as in a multi-resolution file): the complement pattern with other values;
         # it is queried alternately with /a/b below, so that anything remembered per file (not per collection) shows
         cells2 = [c for c in alpha.cells(n, symm) if c not in set(map(tuple, cells))]
@@ -247,6 +257,10 @@ def _api_case(R, n, symm, cells, tag, only, join=False, reduced=False):
                     sel = clr.matrix(field="score", balance=False, chunksize=cs)
                 elif out == "sparse:score":
                     sel = clr.matrix(field="score", balance=False, sparse=True, chunksize=cs)
+                elif out == "dense:weight":
+                    sel = clr.matrix(balance=True, chunksize=cs)
+                elif out == "sparse:KR":
+                    sel = clr.matrix(balance="KR", sparse=True, chunksize=cs)
                 elif out == "pixels":
                     sel = clr.matrix(balance=False, as_pixels=True, chunksize=cs)
                 elif out == "pixels+index":
@@ -284,7 +298,18 @@ def _api_case(R, n, symm, cells, tag, only, join=False, reduced=False):
                                 if o2.shape != exp.shape or not np.array_equal(o2, M2[i0:i1, j0:j1]):
                                     R.mismatch("dense!=slice-of-full(second-collection-of-the-file)", inner, f"got={o2.tolist()} want={M2[i0:i1, j0:j1].tolist()}")
                             res = sel[i0:i1, j0:j1]
-                            if out in ("dense:score", "sparse:score"):
+                            if out in ("dense:weight", "sparse:KR"):
+                                eb = MB[i0:i1, j0:j1]
+                                if out == "sparse:KR":
+                                    got = np.zeros(eb.shape)
+                                    got[res.row, res.col] = res.data
+                                    eb = np.where(M[i0:i1, j0:j1] == 0, 0.0, eb)      # sparse output holds stored cells only
+                                else:
+                                    got = np.asarray(res, dtype=float)
+                                    eb = np.where((M[i0:i1, j0:j1] == 0) & ~np.isnan(eb), 0.0, eb)
+                                if got.shape != eb.shape or not np.allclose(got, eb, rtol=1e-12, atol=0, equal_nan=True):
+                                    R.mismatch("balanced-window!=slice-of-full-balanced-matrix", inner, f"got={got.tolist()} want={eb.tolist()} cells={cells}")
+                            elif out in ("dense:score", "sparse:score"):
                                 es = MS[i0:i1, j0:j1]
                                 got = res.toarray() if out == "sparse:score" else res
                                 if got.shape != es.shape or not np.array_equal(got, es):
